@@ -285,7 +285,7 @@ Definition get_wrapping (s : subr) : wblock :=
   | Some w => w
   | None =>
     let wwidth := match wrap_width (sopts s) with
-                  | Some ww => N.min ww (swidth_ s)
+                  | Some ww => N.max (N.min ww (swidth_ s)) 1
                   | None => swidth_ s
                   end in
     wb_new wwidth (o_pad (sopts s)) (o_allow_overflow (sopts s))
